@@ -28,7 +28,7 @@ package plugin
 //@   ensures(goodbyeonce) running ==> byeCalls(h.Client) == b0 + 1
 //@   ensures(idempotent) !running ==> byeCalls(h.Client) == b0 && closeCalls(h.Transport) == c0 && result == nil
 //@   ensures(closed) !abool(h.Running)
-//@   ensures(closetransport) running ==> closeCalls(h.Transport) == c0 || closeCalls(h.Transport) == c0 + 1
+//@   ensures(closetransport) running && implements(h.Transport, io.Closer) ==> closeCalls(h.Transport) == c0 + 1
 
 //@ contract (*transportHandle).ServiceGenerator
 //@   props C16
